@@ -301,10 +301,11 @@ def raw_num(tok: str):
     return int(tok)
 
 
-def build_raw(text: str):
-    """rebuild real objects from the prefix form written by ``expr`` ; equal ``@id`` = same object"""
+def build_raw(text: str, objs: dict | None = None):
+    """rebuild real objects from the prefix form written by ``expr`` ; equal ``@id`` = same object
+    (pass the same ``objs`` dict to share objects across several roots)"""
     toks = text.split(" ")
-    objs: dict = {}
+    objs = {} if objs is None else objs
     e, i = _build_raw(toks, 0, objs)
     if i != len(toks):
         raise ValueError("trailing tokens")
